@@ -539,6 +539,50 @@ pub fn run(cfg: &Cfg, rep: &mut Report) {
         r.seen("realistic_edits", if edits.is_empty() { "none".to_string() } else { edits });
         r.count("realistic_modules", 1);
     });
+    // instructions longer than the 65535 words an instruction's word-count field can express: whatever
+    // assemble() makes of one, it has to make the same of it inside a module as on its own (round 8: a module
+    // assembler that splits an over-long OpSource into OpSourceContinued pieces no traversal visits)
+    let n = cfg.n(24, 600);
+    run_stage(cfg, rep, "oversized", n, |idx, rng, r| {
+        let shape = if idx % 2 == 0 { 0x1fff } else { rng.u32() & 0x1fff };
+        let mut b = build(rng, shape, 3);
+        let m = &mut b.module;
+        let words = 65_536 + rng.below(3_000);
+        let (kind, big) = match idx % 5 {
+            0 => ("Source", dr::Instruction::new(Op::Source, None, None, vec![Operand::LiteralBit32(0), Operand::LiteralBit32(1), Operand::IdRef(3), Operand::LiteralString("s".repeat(words * 4))])),
+            1 => ("String", dr::Instruction::new(Op::String, None, Some(9), vec![Operand::LiteralString("t".repeat(words * 4))])),
+            2 => ("Name", dr::Instruction::new(Op::Name, None, None, vec![Operand::IdRef(9), Operand::LiteralString("n".repeat(words * 4))])),
+            3 => ("TypeStruct", dr::Instruction::new(Op::TypeStruct, None, Some(9), (0..words).map(|k| Operand::IdRef(k as u32 + 1)).collect())),
+            _ => ("SourceContinued", dr::Instruction::new(Op::SourceContinued, None, None, vec![Operand::LiteralString("c".repeat(words * 4))])),
+        };
+        let place = rng.below(6);
+        match place {
+            0 => m.debug_string_source.insert(rng.below(m.debug_string_source.len() + 1), big),
+            1 => m.debug_names.insert(rng.below(m.debug_names.len() + 1), big),
+            2 => m.types_global_values.insert(rng.below(m.types_global_values.len() + 1), big),
+            3 => m.annotations.push(big),
+            _ => {
+                if m.functions.is_empty() {
+                    m.functions.push(dr::Function::new());
+                }
+                let fi = rng.below(m.functions.len());
+                let f = &mut m.functions[fi];
+                if f.blocks.is_empty() || place == 4 {
+                    let mut blk = dr::Block::new();
+                    blk.instructions.push(big);
+                    f.blocks.push(blk);
+                } else {
+                    let bi = rng.below(f.blocks.len());
+                    let at = rng.below(f.blocks[bi].instructions.len() + 1);
+                    f.blocks[bi].instructions.insert(at, big);
+                }
+            }
+        }
+        let what = format!("module with an Op{} of more than 65535 words (place {})", kind, place);
+        check_any(m, r, &|| crate::util::replay_ref(cfg, "oversized", idx), &what);
+        r.seen("oversized_kinds", format!("{}@{}", kind, place));
+        r.count("oversized_modules", 1);
+    });
     let n = cfg.n(60_000, 40_000_000);
     run_stage(cfg, rep, "random", n, |idx, rng, r| {
         let shape = rng.u32() & 0x1fff;
